@@ -380,12 +380,54 @@ def translate_more_core(repo):
             "Definition more_core_prog : list stmt :=\n  [ %s ].\n" % ";\n    ".join(prog))
 
 
+GEN_INVOKE = os.path.join(vlib.COQ, "C29", "GenInvoke.v")
+INVOKE_EVENTS = [(r"Py_INCREF\(cb_args\)\s*;", "GInc"), (r"Py_X?DECREF\(cb_args\)\s*;", "GDec"),
+                 (r"goto\s+error\s*;", "GFail"), (r"\bdone\s*:", "GDoneLabel"), (r"\breturn\s*;", "GReturn"),
+                 (r"\berror\s*:", "GErrorLabel"), (r"goto\s+done\s*;", "GGotoDone")]
+
+
+def translate_invoke(repo):
+    """Py_INCREF/Py_DECREF of the info tuple, the `goto error` exits, labels, return and `goto done` of
+    general_invoke_callback(), in source order"""
+    try:
+        text = _strip_comments(open(os.path.join(repo, "src", "c", "_cffi_backend.c")).read())
+    except OSError as e:
+        raise Untranslatable(str(e))
+    ms = list(re.finditer(r"static void general_invoke_callback\([^{;]*\)\s*\{", text))
+    if len(ms) != 1:
+        raise Untranslatable("general_invoke_callback: header found %d times" % len(ms))
+    end = text.find("\n}\n", ms[0].end())
+    if end < 0:
+        raise Untranslatable("general_invoke_callback: end of function not found")
+    body = "\n".join(l for l in text[ms[0].end():end].split("\n") if not l.strip().startswith("#"))
+    if len(re.findall(r"\bcb_args\s*=[^=]", body)) != 1 or "PyObject *cb_args = (PyObject *)userdata;" not in body:
+        raise Untranslatable("general_invoke_callback: cb_args is not simply the userdata")
+    for bad in ("Py_CLEAR(cb_args", "Py_SETREF(cb_args", "Py_XSETREF(cb_args", "Py_NewRef(cb_args", "Py_XINCREF(cb_args"):
+        if bad in body:
+            raise Untranslatable("general_invoke_callback: %s is outside the translated subset" % bad)
+    found = []
+    for rx, ev in INVOKE_EVENTS:
+        found += [(m.start(), ev) for m in re.finditer(rx, body)]
+    events = [ev for _, ev in sorted(found)]
+    # shape: main part (GInc/GDec/GFail) ; done: ... return; error: ... goto done;
+    try:
+        d, r, e, g = (events.index(x) for x in ("GDoneLabel", "GReturn", "GErrorLabel", "GGotoDone"))
+    except ValueError as ex:
+        raise Untranslatable("general_invoke_callback: %s" % ex)
+    if not (d < r < e < g) or g != len(events) - 1 or [events.count(x) for x in (
+            "GDoneLabel", "GReturn", "GErrorLabel", "GGotoDone")] != [1, 1, 1, 1] or "GFail" in events[d:]:
+        raise Untranslatable("general_invoke_callback: control skeleton outside the translated shape: %r" % events)
+    head = open(GEN_INVOKE + ".snapshot").read().split("Definition invoke_events")[0]
+    return head + "Definition invoke_events : list gev :=\n  [ %s ].\n" % "; ".join(events)
+
+
 def regen(ctx):
     from props import c35
     c35.regen_file(ctx, GEN, translate_more_core)
+    c35.regen_file(ctx, GEN_INVOKE, translate_invoke)
 
 
-def private_recheck(prop, gen_text):
+def private_recheck(prop, gen_text, genfile="Gen.v", more=None):
     """compile the closure of coq/<prop>/Props.v in a private directory with gen_text as <prop>/Gen.v.
     (coq/<prop>/Gen.v is a shared file: a concurrent run of the same check on another tree — mutation tests —
     can replace it between this run's regeneration and its make.)  -> (ok, log)"""
@@ -397,7 +439,9 @@ def private_recheck(prop, gen_text):
         files = [f for f in vlib.coq_closure(prop + "/Props.v") if f.startswith(prop + "/")]
         deps = {}
         for f in files:
-            text = gen_text if f == prop + "/Gen.v" else open(os.path.join(vlib.COQ, f)).read()
+            over = dict(more or {})
+            over[prop + "/" + genfile] = gen_text
+            text = over[f] if f in over else open(os.path.join(vlib.COQ, f)).read()
             with open(os.path.join(d, f), "w") as out:
                 out.write(text)
             deps[f] = {prop + "/" + m + ".v" for m in re.findall(r"\b%s\.(\w+)" % prop, vlib.strip_comments(text))} - {f}
@@ -419,7 +463,7 @@ def private_recheck(prop, gen_text):
             vlib._scratch_dirs.remove(d)
 
 
-def settle_obligations(ctx, prop, gen, translate):
+def settle_obligations(ctx, prop, gen, translate, gen2=None, translate2=None):
     """make the proof verdict independent of interference on the shared Gen.v: when the shared build and the
     regenerated text disagree (text == snapshot but the build failed, or text != snapshot but the build passed),
     the obligations are re-checked privately on this run's own regenerated text and that verdict is used"""
@@ -430,10 +474,18 @@ def settle_obligations(ctx, prop, gen, translate):
     except Untranslatable:
         return
     same = text == open(gen + ".snapshot").read()
+    more = None
+    if gen2 is not None:
+        try:
+            text2 = translate2(vlib.REPO)
+        except Untranslatable:
+            text2 = open(gen2 + ".snapshot").read()
+        same = same and text2 == open(gen2 + ".snapshot").read()
+        more = {prop + "/" + os.path.basename(gen2): text2}
     coq_ok = bool(ctx.coq.get("ok"))
     if same == coq_ok:
         return
-    ok, log = private_recheck(prop, text)
+    ok, log = private_recheck(prop, text, os.path.basename(gen), more)
     ctx.extra["private_recheck"] = dict(ok=ok, shared_build_ok=coq_ok, text_is_snapshot=same)
     if ok and not coq_ok:
         ctx.broken[:] = [b for b in ctx.broken if not (b[0] or "").startswith(prop)]
@@ -454,12 +506,12 @@ class Gen:
         self.next_h = 1
         self.next_f = 1
 
-    def create(self, cyc=None):
+    def create(self, cyc=None, sig=None):
         rng = self.rng
         h, f = self.next_h, self.next_f
         self.next_h += 1
         self.next_f += 1
-        sig = rng.choice([0, 0, 1, 2])
+        sig = rng.choice([0, 0, 1, 2, 3, 4, 5]) if sig is None else sig
         if cyc is None:
             cyc = rng.random() < 0.03
         self.ops.append(["create", h, f, sig, bool(cyc)])
@@ -485,6 +537,31 @@ class Gen:
             h = self.rng.choice(self.live)
         self.ops.append(["call", h, self.rng.randrange(0, 1000), self.rng.choice(["cdata", "c", "cast"])])
 
+    def badcall(self, h=None):
+        """invoke a live char32_t/wchar_t/_Bool callback from C with a value convert_to_object rejects"""
+        cands = [x for x in self.live if self.sig[x] >= 3]
+        if not cands:
+            return None
+        h = h if h is not None else self.rng.choice(cands)
+        self.ops.append(["badcall", h, self.rng.randrange(3)])
+        return h
+
+    def badcall_burst(self):
+        """bad invocations of a few live callbacks, then new callbacks (whose info tuples would take the place of
+        a tuple freed too early), then every live callback is called again"""
+        rng = self.rng
+        for _ in range(rng.choice([1, 2, 5])):
+            self.create(sig=rng.choice([3, 4, 5]), cyc=False)
+        victims = [self.badcall() for _ in range(rng.choice([1, 3, 6]))]
+        for _ in range(rng.choice([2, 8, 30])):
+            self.create(cyc=False)
+            if rng.random() < 0.2:
+                self.drop()
+        for h in victims:
+            if h in self.live:
+                self.call(h)
+        self.sweep(1.0 if len(self.live) <= 400 else 0.3)
+
     def sweep(self, frac=1.0):
         for h in list(self.live):
             if frac >= 1.0 or self.rng.random() < frac:
@@ -502,9 +579,12 @@ def gen_history(rng, target):
             g.drop()
         elif k < 0.90:
             g.ops.append(["fail"])
+        elif k < 0.92:
+            g.badcall()
         else:
             g.call()
     g.sweep(1.0 if target <= 1500 else 0.4)
+    g.badcall_burst()
     # phase 2: mass drop in random order, then re-create (LIFO order of the free list)
     victims = rng.sample(g.live, min(len(g.live), rng.choice([5, 40, target // 3 + 1])))
     for h in victims:
@@ -523,8 +603,11 @@ def gen_history(rng, target):
             g.drop()
         elif k < 0.83:
             g.ops.append(["fail"])
+        elif k < 0.86:
+            g.badcall()
         else:
             g.call()
+    g.badcall_burst()
     # phase 4: drop nearly everything, grow again past the previous high-water mark
     if rng.random() < 0.5:
         for h in rng.sample(g.live, len(g.live) * 9 // 10):
@@ -547,6 +630,9 @@ def generate(ctx):
 def c_ops(ops):
     out = []
     for op in ops:
+        if op[0] == "badcall":
+            continue            # an invocation does not touch the allocator model (its effect on the info
+                                # tuple's reference count is C29.Refs; the outputs are checked by predicate())
         if op[0] == "create":
             out.append("Create %s %s" % (cn(op[1]), cn(op[2])))
         elif op[0] == "fail":
@@ -561,6 +647,8 @@ def c_ops(ops):
 def canon_outs(outs):
     seen, res = {}, []
     for o in outs:
+        if o[0] == "errval":
+            continue
         if o[0] == "addr":
             if o[1] not in seen:
                 seen[o[1]] = len(seen)
@@ -603,6 +691,10 @@ def predicate(case, outs):
             elif o[1] != fid or not o[2]:
                 bad.append(("calling live callback #%d created with function %d (%s route) ran function %d%s"
                             % (op[1], fid, op[3], o[1], "" if o[2] else " with a garbled value"), i))
+        elif op[0] == "badcall":
+            if op[1] in live and o != ["errval", 0]:
+                bad.append(("invoking live callback #%d from C with an unconvertible argument gave %r instead of the "
+                            "error value 0" % (op[1], o), i))
         elif op[0] == "fail":
             if o != ["err", "NotImplementedError"]:
                 bad.append(("variadic ffi.callback() gave %r" % (o,), i))
@@ -726,7 +818,7 @@ def consistent(ops):
             if op[1] not in live:
                 continue
             live.discard(op[1])
-        elif op[0] == "call" and op[1] not in live:
+        elif op[0] in ("call", "badcall") and op[1] not in live:
             continue
         out.append(op)
     return out
@@ -746,7 +838,9 @@ def shrink(ctx, case, kind, out=None):
     if kind == "model" and out is not None:
         i = first_diff(case, out)
         if i is not None:
-            case = dict(ops=case["ops"][:i + 1])
+            pos = [k for k, op in enumerate(case["ops"]) if op[0] != "badcall"]     # the model skips badcalls
+            if i < len(pos):
+                case = dict(ops=case["ops"][:pos[i] + 1])
 
     def fails(ops):
         c = dict(ops=consistent(ops))
@@ -851,6 +945,12 @@ def run(ctx):
         "C29_gen_threaded_inside_mapping and C29_gen_matches_model are re-proved on it each run; if they break, "
         "first_overflow on the regenerated program gives the number of live callbacks at which it manifests and the "
         "bulk test is run with that many",
+        "coq/C29/GenInvoke.v: Py_INCREF/Py_DECREF of the callback's info tuple, the `goto error` exits, done:/error: "
+        "labels, return and goto done of general_invoke_callback(), regenerated in source order (fail closed); "
+        "C29_gen_invoke_paths_balanced (every path leaves the count unchanged and never below) is re-proved on it and "
+        "C29_tuple_alive_while_live / C29_invoke_runs_own (C29/Refs.v) depend on it; exercised by invocations from C "
+        "with arguments convert_to_object rejects (char32_t/wchar_t above 0x10FFFF, _Bool bytes other than 0/1), "
+        "followed by new callbacks and re-calls of every live one",
         "hand-written model C29/Model.v of malloc_closure.h + b_callback/cdataowninggc_dealloc; tied by this "
         "run's differential histories (addresses compared as first-appearance numbers)",
         "mmap() returns memory disjoint from every earlier mapping (built into the (block, slot) addresses)",
@@ -858,7 +958,7 @@ def run(ctx):
         "libffi: the trampoline at a closure's address passes that closure's user_data to invoke_callback",
         "single-threaded (GIL build): MALLOC_CLOSURE_LOCK is a no-op; CPython frees a callback when its last "
         "reference goes away, or at gc.collect() for reference cycles"]
-    settle_obligations(ctx, "C29", GEN, translate_more_core)
+    settle_obligations(ctx, "C29", GEN, translate_more_core, GEN_INVOKE, translate_invoke)
     evaluate(ctx, generate(ctx))
 
 
